@@ -436,9 +436,13 @@ pub fn summary(c: &Composer, r: &Run) -> String {
     for x in &r.rets {
         hr.push_u64(*x);
     }
+    let mut rv = Hasher::new();
+    for w in &r.regs {
+        rv.push(&s.witnesses[w.index()]);
+    }
     let errs: Vec<String> = r.errs.iter().map(|(i, e)| format!("{}:{}", i, e)).collect();
     format!(
-        "gates={} wit={} pis={} hg={} hw={} hp={} hr={} errs=[{}]",
+        "gates={} wit={} pis={} hg={} hw={} hp={} hr={} rv={} errs=[{}]",
         s.gates.len(),
         s.witnesses.len(),
         s.public_inputs.len(),
@@ -446,6 +450,7 @@ pub fn summary(c: &Composer, r: &Run) -> String {
         hw.hex(),
         hp.hex(),
         hr.hex(),
+        rv.hex(),
         errs.join(",")
     )
 }
